@@ -172,6 +172,57 @@ func runC18(args []string) int {
 			rep.Fail("c18:honest-chain-rejected:phase2", "an honest phase-2 chain is rejected: "+err.Error(), d2)
 			continue
 		}
+		// phase-2 model tie (Std/Mpc2.v): along the chain delta is the same scalar in G1 and G2, delta*Z, delta*PKK and
+		// SigmaCKK/sigma are invariant — checked element-wise by pairings on the contributions as the participants sent them
+		{
+			var st []*mpc.Phase2
+			p0 := new(mpc.Phase2)
+			p0.Initialize(sys, &commons)
+			st = append(st, p0)
+			for _, b := range raw2 {
+				q, err := readPhase2(b)
+				if err != nil {
+					break
+				}
+				st = append(st, q)
+			}
+			_, _, g1g, g2g := curve.Generators()
+			same := func(a1 curve.G1Affine, a2 curve.G2Affine, b1 curve.G1Affine, b2 curve.G2Affine) bool { // e(a1,a2) == e(b1,b2)
+				var nb1 curve.G1Affine
+				nb1.Neg(&b1)
+				ok, err := curve.PairingCheck([]curve.G1Affine{a1, nb1}, []curve.G2Affine{a2, b2})
+				return err == nil && ok
+			}
+			bad := ""
+			for k := 1; k < len(st) && bad == ""; k++ {
+				p, q := st[k-1], st[k]
+				if !same(q.Parameters.G1.Delta, g2g, g1g, q.Parameters.G2.Delta) {
+					bad = fmt.Sprintf("contribution %d: delta differs between G1 and G2", k)
+				}
+				for i := range q.Parameters.G1.Z {
+					if !same(q.Parameters.G1.Z[i], q.Parameters.G2.Delta, p.Parameters.G1.Z[i], p.Parameters.G2.Delta) {
+						bad = fmt.Sprintf("contribution %d: delta * Z[%d] changed", k, i)
+					}
+				}
+				for i := range q.Parameters.G1.PKK {
+					if !same(q.Parameters.G1.PKK[i], q.Parameters.G2.Delta, p.Parameters.G1.PKK[i], p.Parameters.G2.Delta) {
+						bad = fmt.Sprintf("contribution %d: delta * PKK[%d] changed", k, i)
+					}
+				}
+				for ci := range q.Parameters.G1.SigmaCKK {
+					for j := range q.Parameters.G1.SigmaCKK[ci] {
+						if !same(q.Parameters.G1.SigmaCKK[ci][j], p.Parameters.G2.Sigma[ci], p.Parameters.G1.SigmaCKK[ci][j], q.Parameters.G2.Sigma[ci]) {
+							bad = fmt.Sprintf("contribution %d: SigmaCKK[%d][%d] / sigma[%d] changed", k, ci, j, ci)
+						}
+					}
+				}
+				rep.Eval(fmt.Sprintf("%s|phase2-invariants|%d", c.name, k), true)
+				rep.Count("phase2-model-invariants")
+			}
+			if bad != "" {
+				rep.Fail("c18:phase2-model-invariants", "an honest phase-2 contribution does not satisfy the relations of the model (Std/Mpc2.v): "+bad, d2)
+			}
+		}
 		// keys work
 		{
 			full, _ := frontend.NewWitness(c.asg(), bnQ)
